@@ -12,13 +12,13 @@ ALPHABET = ["a", "b", "Z", "0", " ", "\n", ";", "\t", "é", "ß", "€", "中", 
 def can_empty(n: Node) -> bool:
     """decoding may succeed on empty input (so a huge garbage count would spin)"""
     k, a = n.k, n.a
-    if k in ("bytesgreedy", "null", "ifpresent"):
+    if k in ("bytesgreedy", "null", "ifpresent", "optflagged"):
         return True
     if k in ("bytesterm", "cstr"):
         return a[2]
     if k in ("bytesfixed", "strfixed"):
         return a[0] == 0
-    if k in ("tuple", "template"):
+    if k in ("tuple", "template", "coord", "dataclass"):
         return all(can_empty(c) for c in n.ch)
     if k == "coll":
         lk = a[0]
@@ -51,7 +51,7 @@ def fixed_size(n: Node):
         return 16
     if k == "null":
         return 0
-    if k in ("tuple", "template"):
+    if k in ("tuple", "template", "coord", "dataclass"):
         t = 0
         for c in n.ch:
             s = fixed_size(c)
@@ -117,7 +117,7 @@ def gen_leaf(rng, need_delim):
     return Node("null")
 
 
-def gen_spec(rng, depth, need_delim=False, sloppy=0.0, stage2=0.0):
+def gen_spec(rng, depth, need_delim=False, sloppy=0.0, stage2=0.0, wave2=True):
     """a random tree; with probability `sloppy` a position ignores the tail-position discipline
     (non-wf specs: still compared with the model, outside the proved fragment)"""
     if rng.random() < sloppy:
@@ -128,8 +128,10 @@ def gen_spec(rng, depth, need_delim=False, sloppy=0.0, stage2=0.0):
         s2 = gen_stage2(rng, depth, need_delim, sloppy, stage2)
         if s2 is not None:
             return s2
+    if wave2 and rng.random() < 0.22:
+        return gen_wave2(rng, depth, need_delim, sloppy, stage2)
     r = rng.random()
-    sub = lambda nd: gen_spec(rng, depth - 1, nd, sloppy, stage2)
+    sub = lambda nd: gen_spec(rng, depth - 1, nd, sloppy, stage2, wave2)
     if r < 0.22:
         n = rng.choice((0, 1, 2, 2, 3, 3))
         return Node("tuple", (), [sub(True if i < n - 1 else need_delim) for i in range(n)])
@@ -188,8 +190,100 @@ def gen_spec(rng, depth, need_delim=False, sloppy=0.0, stage2=0.0):
     elif c < 0.93:
         tk = ("greedy",)
     else:
-        tk = ("term", rng.choice(TERM_SETS))
+        tk = ("term", rng.choice(TERM_SETS), rng.random() < 0.6)
     return Node("typed", (tk, en, ct), [ch])
+
+
+QUANT_IDS = [0, 1, 2, 3, 4, 5]
+FIXED_FOR = {("u", 2): [8, 9], ("u", 1): [10, 12], ("u", 4): [11]}
+
+
+def gen_opaque(rng):
+    if rng.random() < 0.6:
+        return Node("adapter", (("opaque", rng.choice(QUANT_IDS)),), [Node("prim", rng.choice([("u", 1), ("u", 2), ("u", 2), ("s", 2), ("u", 4)]))])
+    ip = rng.choice(list(FIXED_FOR))
+    return Node("adapter", (("opaque", rng.choice(FIXED_FOR[ip])),), [Node("prim", ip)])
+
+
+def gen_coord(rng):
+    name = rng.choice(["Vector3", "Vector4", "Vector3D", "Vector3U16", "Vector4U16", "Vector3U8", "Vector4U8", "Vector2U16",
+                       "FixedPointVector3U16"])
+    from harness.translate.c08_specs import COORDS
+    cnt = COORDS[name]
+    if name in ("Vector3", "Vector4"):
+        ch = [Node("prim", ("f", 4)) for _ in range(cnt)]
+    elif name == "Vector3D":
+        ch = [Node("prim", ("f", 8)) for _ in range(cnt)]
+    elif name.startswith("FixedPoint"):
+        pid = rng.choice([8, 9])
+        ch = [Node("adapter", (("opaque", pid),), [Node("prim", ("u", 2))]) for _ in range(cnt)]
+    else:
+        pid = rng.choice(QUANT_IDS)
+        w = 2 if "U16" in name else 1
+        ch = [Node("adapter", (("opaque", pid),), [Node("prim", ("u", w))]) for _ in range(cnt)]
+    return Node("coord", (name,), ch)
+
+
+def gen_bitfield(rng):
+    w = rng.choice((1, 1, 2, 4))
+    total = 8 * w
+    shift = rng.random() < 0.75
+    ents, used, nm = [], 0, 0
+    for _ in range(rng.randrange(1, 5)):
+        bits = rng.randrange(1, min(9, total - used + 1)) if total - used >= 1 else 0
+        if bits == 0:
+            break
+        fa = None
+        c = rng.random()
+        if shift and c < 0.2:
+            fa = ("bool",)
+        elif shift and c < 0.4:
+            vals = rng.sample(range(0, 1 << bits), min(rng.randrange(1, 4), 1 << bits))
+            names = rng.sample(range(0, 9), len(vals))
+            fa = ("enum", rng.random() < 0.3, tuple(zip(names, vals)))
+        elif shift and c < 0.55:
+            bs = rng.sample(range(bits), min(rng.randrange(1, 3), bits))
+            names = rng.sample(range(0, 9), len(bs))
+            fa = ("flag", tuple((n_, 1 << b) for n_, b in zip(names, bs)))
+        ents.append((nm, bits, fa))
+        nm += 1
+        used += bits
+    return Node("adapter", (("bitfield", shift, tuple(ents)),), [Node("prim", ("u", w))])
+
+
+def gen_flag_template(rng, depth, need_delim, sloppy, stage2):
+    """a Template whose first member is a flags field and whose later members are OptionalFlagged on it"""
+    sub = lambda nd: gen_spec(rng, depth - 1, nd, sloppy, stage2, True)
+    tbl = gen_tbl(rng, flags=True)
+    w = 4 if any(z >= 256 for _, z in tbl) else rng.choice((1, 2, 4))
+    n = rng.choice((2, 3, 4))
+    names = rng.sample(range(0, 8), n)
+    plain = rng.random() < 0.25
+    chs = [Node("prim", ("u", w)) if plain else Node("adapter", (("flag", tbl),), [Node("prim", ("u", w))])]
+    for i in range(1, n):
+        nd = True if i < n - 1 else need_delim
+        c = sub(nd)
+        if rng.random() < 0.7:
+            mask = rng.choice([z for _, z in tbl])
+            c = Node("optflagged", (names[0], None if plain else tbl, mask), [c])
+        chs.append(c)
+    return Node("template", (tuple(names), rng.random() < 0.5), chs)
+
+
+def gen_wave2(rng, depth, need_delim, sloppy, stage2):
+    sub = lambda nd: gen_spec(rng, depth - 1, nd, sloppy, stage2, True)
+    r = rng.random()
+    if r < 0.2:
+        return gen_opaque(rng)
+    if r < 0.4:
+        return gen_coord(rng)
+    if r < 0.58:
+        return gen_bitfield(rng)
+    if r < 0.75:
+        n = rng.choice((1, 2, 3))
+        names = tuple(rng.sample(range(0, 8), n))
+        return Node("dataclass", (names,), [sub(True if i < n - 1 else need_delim) for i in range(n)])
+    return gen_flag_template(rng, depth, need_delim, sloppy, stage2)
 
 
 def gen_stage2(rng, depth, need_delim, sloppy, stage2):
@@ -308,10 +402,36 @@ def gen_str(rng, maxbytes, avoid=(), no_trail0=True):
     return out
 
 
-def gen_value(n: Node, pod: bool, rng):
+def flag_int(n_opt: Node, ctxd):
+    """OptionalFlagged._normalize_flag_val on the dict generated so far"""
+    from harness.translate import c08_specs as S
+    f, ftbl, mask = n_opt.a
+    v = (ctxd or {}).get(S.key_name(f))
+    if v is None:
+        raise NoValue("flag field missing")
+    if ftbl is None:
+        return int(v)
+    se, _ = mods()
+    return int(se.IntFlag(S.flag_cls(ftbl)).encode(v, None))
+
+
+def gen_value(n: Node, pod: bool, rng, ctxd=None):
     """a value of the derived domain of the spec in the given mode (canonical representation)"""
-    _, dt = mods()
+    se, dt = mods()
     k, a = n.k, n.a
+    if k == "optflagged":
+        if flag_int(n, ctxd) & a[2]:
+            return gen_value(n.ch[0], pod, rng, ctxd)
+        return None
+    if k == "coord":
+        comps = [gen_value(c, pod, rng) for c in n.ch]
+        return tuple(comps) if pod else getattr(se, a[0]).COORD_CLS(*comps)
+    if k == "dataclass":
+        from harness.translate import c08_specs as S
+        out = {}
+        for kk, c in zip(S.tkeys(n), n.ch):
+            out[kk] = gen_value(c, pod, rng, out)
+        return out if pod else S._make_dataclass(n, [S.build(c) for c in n.ch])(**out)
     if k == "prim":
         if a[0] == "f":
             return gen_float(rng, a[1])
@@ -340,8 +460,8 @@ def gen_value(n: Node, pod: bool, rng):
     if k == "template":
         out = {}
         for nm, c in zip(a[0], n.ch):
-            v = gen_value(c, pod, rng)
-            if c.k == "opt" and a[1] and v is None:
+            v = gen_value(c, pod, rng, out)
+            if c.k in ("opt", "optflagged") and a[1] and v is None:
                 continue
             out["f%d" % nm] = v
         return out
@@ -352,13 +472,13 @@ def gen_value(n: Node, pod: bool, rng):
             cnt = min(cnt, ip_range(lk[1], lk[2])[1])
         return [gen_value(n.ch[0], pod, rng) for _ in range(cnt)]
     if k == "opt":
-        return None if rng.random() < 0.3 else gen_value(n.ch[0], pod, rng)
+        return None if rng.random() < 0.3 else gen_value(n.ch[0], pod, rng, ctxd)
     if k == "typed":
         if a[1] and rng.random() < 0.3:
             return None
-        return gen_value(n.ch[0], pod, rng)
+        return gen_value(n.ch[0], pod, rng, ctxd)
     if k == "ifpresent":
-        return None if rng.random() < 0.3 else gen_value(n.ch[0], pod, rng)
+        return None if rng.random() < 0.3 else gen_value(n.ch[0], pod, rng, ctxd)
     if k == "adapter":
         return gen_adapter_value(n, pod, rng)
     if k == "lenswitch":
@@ -380,9 +500,63 @@ class NoValue(Exception):
     pass
 
 
+HYPOTHESIS_FAILS = [0]
+
+
+def gen_sadapter_int(ad, lo, hi, pod, rng):
+    """(python value, ok) for a Bool / IntEnum / IntFlag adapter whose wire int lies in lo..hi"""
+    from harness.translate.c08_specs import flag_cls
+    _, dt = mods()
+    if ad[0] == "bool":
+        return rng.random() < 0.5
+    if ad[0] == "enum":
+        strict, tbl = ad[1], ad[2]
+        canon = {}
+        for nm, z in tbl:
+            canon.setdefault(z, nm)
+        members = [z for z in canon if lo <= z <= hi]
+        if members and (strict or rng.random() < 0.7):
+            z = rng.choice(members)
+            return "E%d" % canon[z] if pod else z
+        if strict:
+            raise NoValue("no member fits")
+        for _ in range(20):
+            z = gen_int(rng, lo, hi)
+            if z not in canon:
+                return z
+        raise NoValue("no value found")
+    z = gen_int(rng, lo, hi)
+    return dt.flags_to_pod(flag_cls(ad[1]), z) if pod else z
+
+
 def gen_adapter_value(n, pod, rng):
     ad = n.a[0]
     c = n.ch[0]
+    if ad[0] == "opaque":
+        from harness.translate import c08_specs as S
+        p = S._prim_of(n)
+        lo, hi = ip_range(p.a[0] == "s", p.a[1])
+        for _ in range(8):
+            z = gen_int(rng, lo, hi)
+            v = S.opaque_value(n, z)
+            try:
+                if S.opaque_int(n, v) == z:
+                    return v
+            except S.Shape:
+                pass
+            HYPOTHESIS_FAILS[0] += 1       # encode(decode(z)) != z: outside the C10 hypothesis, not used
+        raise NoValue("lossless hypothesis fails")
+    if ad[0] == "bitfield":
+        out, cur = {}, 0
+        for nm, bits, fa in ad[2]:
+            mask = (1 << bits) - 1
+            if fa is None:
+                x = rng.choice((0, mask, rng.randrange(0, mask + 1)))
+                out["b%d" % nm] = x if ad[1] else x << cur
+            else:
+                out["b%d" % nm] = gen_sadapter_int(fa, 0, 1 if fa[0] == "bool" else mask, pod, rng)
+            cur += bits
+        return out
     lo, hi = ip_range(c.a[0] == "s", c.a[1]) if c.k == "prim" and c.a[0] != "f" else (0, 255)
     if ad[0] == "bool":
         return rng.random() < 0.5
@@ -460,6 +634,14 @@ def gen_bad(n: Node, pod: bool, rng, budget=70000):
         vals = [gen_value(c, pod, rng) for _ in range(cnt)]
         vals[rng.randrange(cnt)] = b
         return vals
+    if k == "dataclass":
+        from harness.translate import c08_specs as S
+        def mkd(vals):
+            d = dict(zip(S.tkeys(n), vals))
+            return d if pod else S._make_dataclass(n, [S.build(c) for c in n.ch])(**d)
+        return _bad_in_children(n, pod, rng, budget, mkd)
+    if k in ("coord", "optflagged"):
+        return None
     if k in ("opt", "ifpresent"):
         return gen_bad(n.ch[0], pod, rng, budget)
     if k == "typed":
@@ -467,6 +649,18 @@ def gen_bad(n: Node, pod: bool, rng, budget=70000):
     if k == "adapter":
         c = n.ch[0]
         ad = a[0]
+        if ad[0] == "bitfield":
+            if not ad[1]:
+                return None
+            good = gen_adapter_value(n, pod, rng)
+            plain = [e for e in ad[2] if e[2] is None]
+            if not plain:
+                return None
+            nm, bits, _ = rng.choice(plain)
+            good["b%d" % nm] = (1 << bits) + rng.randrange(0, 3)
+            return good
+        if ad[0] == "opaque":
+            return None
         if c.k != "prim" or c.a[0] == "f" or pod or ad[0] == "bool":
             return None
         lo, hi = ip_range(c.a[0] == "s", c.a[1])
